@@ -1,6 +1,8 @@
 #!/usr/bin/env python3
 """Confirm a seeded change and run our check against it.
-usage: tools/seed_eval.py <seed-id> <Cxx> <srcdir> <demo-pkg-dir> <demo-run-regex> [--tier quick] [--skip-confirm]
+usage: tools/seed_eval.py <seed-id> <Cxx> <srcdir> <demo-pkg-dir> <demo-run-regex> [--tier quick] [--skip-confirm] [--wt]
+  --wt: run the check against a patched scratch worktree (VERIF_REPO / VERIF_SCRATCH) instead of patching /repo, so that several
+        evaluations can run side by side and /repo and the committed evidence stay untouched
   srcdir contains patch.diff, demo_test.go, meta.json (from the helper).
 1. scratch worktree of /repo HEAD: demo passes without the patch, fails with it; touched packages' baseline tests still pass
 2. apply the patch to /repo, run ./check Cxx, undo
@@ -12,6 +14,7 @@ tier = "quick"
 if "--tier" in sys.argv:
     tier = sys.argv[sys.argv.index("--tier") + 1]
 skip = "--skip-confirm" in sys.argv
+usewt = "--wt" in sys.argv
 env = dict(os.environ, GOFLAGS="-mod=mod", GOPROXY="off", GOSUMDB="off", GOTOOLCHAIN="local")
 def sh(cmd, cwd=None, timeout=3000):
     p = subprocess.run(cmd, shell=True, cwd=cwd, env=env, capture_output=True, text=True, timeout=timeout)
@@ -55,13 +58,40 @@ if not skip:
         out["baseline_tests_in_touched_packages"] = len(want)
         out["baseline_tests_missing_with_patch"] = missing
     finally:
+        if not usewt:
+            sh("git -C /repo worktree remove --force %s" % wt)
+if usewt:
+    scr = "/tmp/seedscr-" + sid
+    try:
+        if skip:
+            sh("git -C /repo worktree remove --force %s" % wt)
+            rc, o = sh("git -C /repo worktree add -q %s HEAD" % wt)
+            assert rc == 0, o
+            rc, o = sh("git apply %s" % patch, cwd=wt)
+            assert rc == 0, "cannot apply: " + o
+        rc, o = sh("git status --porcelain", cwd=wt)
+        assert o.strip() != "", "worktree carries no change"
+        env2 = dict(env, VERIF_REPO=wt, VERIF_SCRATCH=scr)
+        p = subprocess.run("./check %s --tier %s" % (prop, tier), shell=True, cwd="/verif", env=env2, capture_output=True, text=True, timeout=7200)
+        rc, o = p.returncode, p.stdout + p.stderr
+        vio = [l for l in o.split("\n") if l.startswith("VIOLATION") or l.strip().startswith("signature:")]
+        out["check_cmd"] = "VERIF_REPO=<patched scratch worktree> ./check %s --tier %s" % (prop, tier)
+        out["check_exit"] = rc
+        out["check_violations"] = vio[:20]
+        out["caught"] = (rc == 1 and any(l.startswith("VIOLATION") for l in vio))
+        if rc not in (0, 1):
+            out["check_tail"] = o[-1500:]
+    finally:
         sh("git -C /repo worktree remove --force %s" % wt)
+        shutil.rmtree(scr, ignore_errors=True)
 # run our check with the patch applied to /repo
-rc, o = sh("git -C /repo status --porcelain")
+rc, o = (0, "") if usewt else sh("git -C /repo status --porcelain")
 assert o.strip() == "", "repo not clean: " + o
-rc, o = sh("git -C /repo apply --3way %s || git -C /repo apply %s" % (patch, patch))
-assert rc == 0, "cannot apply to /repo: " + o
+if not usewt:
+    rc, o = sh("git -C /repo apply --3way %s || git -C /repo apply %s" % (patch, patch))
+    assert rc == 0, "cannot apply to /repo: " + o
 try:
+  if not usewt:
     sh("git -C /repo reset -q")  # --3way stages; keep the index clean
     rc, o = sh("./check %s --tier %s" % (prop, tier), cwd="/verif", timeout=7200)
     vio = [l for l in o.split("\n") if l.startswith("VIOLATION") or l.strip().startswith("signature:")]
@@ -70,6 +100,7 @@ try:
     out["check_violations"] = vio[:20]
     out["caught"] = (rc == 1 and any(l.startswith("VIOLATION") for l in vio))
 finally:
+  if not usewt:
     sh("git -C /repo checkout -- . && git -C /repo reset -q && git -C /repo clean -fdq pkg cmd")
     rc, o = sh("git -C /repo status --porcelain")
     assert o.strip() == "", "repo not clean after undo: " + o
